@@ -207,6 +207,35 @@ func c15Run(c *mon.Ctx) {
 				c.NonTrivial(uint64(mon.NewH().U(math.Float64bits(la)).U(math.Float64bits(lo)).U(math.Float64bits(d)).U(math.Float64bits(brg))))
 			}
 		})
+		// BearingTo against the reference bearing directly (independent of the
+		// accuracy of DestinationPoint), with bearings next to the cardinal ones
+		if i%4 == 0 {
+			c.Try(func() {
+				if math.Abs(la) > 80 {
+					return
+				}
+				dd := math.Pow(10, r.Float64()*6.5) // 1 m .. 3000 km
+				bb := []float64{0, 90, 180, 270}[r.Intn(4)] + []float64{1, -1}[r.Intn(2)]*math.Pow(10, -float64(r.Intn(8)))*(0.3+r.Float64())
+				if r.Intn(3) == 0 {
+					bb = r.Float64() * 360
+				}
+				bl, bn := sphere.Dest(la, lo, dd, bb)
+				if math.Abs(bl) > 85 {
+					return
+				}
+				got := geo.BearingTo(la, lo, bl, bn)
+				ref := sphere.Bearing(la, lo, bl, bn)
+				diff := math.Abs(math.Mod(got-ref+540, 360) - 180)
+				// 1e-6 degree, scaled by the conditioning of the problem: the coordinates are only
+				// good to about 1e-9 m, which turns the bearing by 1e-9/d radians
+				allow := 1e-6 + 5e-9/dd*180/math.Pi + 1e-6/math.Cos(la*math.Pi/180)
+				c.Eval()
+				c.Count("bearing_direct_checked")
+				if diff > allow || got < 0 || got >= 360 || math.IsNaN(got) {
+					c.Violation("bearing-direct", "BearingTo differs from the reference initial bearing", c15Case{What: "BearingTo", Args: []float64{la, lo, bl, bn}, Got: []float64{got}, Want: []float64{ref}, Detail: fmt.Sprintf("distance %.3f m, diff %g deg, allowed %g deg", dd, diff, allow)})
+				}
+			})
+		}
 		// haversine conversions, monotonicity, normalisation
 		c.Try(func() {
 			d1 := sampleDist(r)
@@ -306,6 +335,6 @@ func init() {
 		Assumptions: []string{"reference: internal/sphere (atan2 of cross and dot products), accurate to < 10^-5 m (checked)", "tolerances as the statement gives them: max(1 mm, 1e-6 d); near the antipode the distance-from-haversine resolution (~0.13-0.3 m) is allowed for, as the statement's 'converts without loss' cannot be finer than one ulp of the haversine", "known finding F19 (destination within ~10 m of a pole) is matched with a magnitude bound of 0.5 m"},
 		Run:         c15Run,
 		Replay:      c15Replay,
-		MustSee:     []string{"bearing_checked", "monotone_checked", "semicircle_checked", "object_distance_checked", "reference_residual_checked", "near_antipode_pairs"},
+		MustSee:     []string{"bearing_direct_checked", "bearing_checked", "monotone_checked", "semicircle_checked", "object_distance_checked", "reference_residual_checked", "near_antipode_pairs"},
 	})
 }
